@@ -435,7 +435,10 @@ def st_cases(files):
                 "cuts": draw(st.lists(st.integers(1, 400), max_size=3)),
                 "drop": draw(st.lists(st.integers(0, 400), max_size=4)),
                 "offsets": draw(st.lists(st.sampled_from([0, 0, 1, 50, 100, -30, 1000]), min_size=1, max_size=4)),
-                "names": draw(st.sampled_from([["A", "B", "C", "D"], ["B", "A", "D", "C"], ["X", "X2", "Y", "Z"], ["A", "A", "B", "B"]])),
+                "names": draw(st.sampled_from([["A", "B", "C", "D"], ["B", "A", "D", "C"], ["X", "X2", "Y", "Z"], ["A", "A", "B", "B"],
+                                                # a chain id that comes back after another chain (ligand-like nucleotides
+                                                # or HETATM residues listed after the other chains): two strands, one name
+                                                ["A", "B", "A", "B"], ["A", "B", "A", "C"], ["B", "A", "B", "A"]])),
             }
         return case
 
